@@ -12,9 +12,10 @@ def run(ctx):
         fsets = fsets + ["allimpl"]   # the feature-gated impls (chrono, serde_json, tokio, ..) are only type-checked there
     for fs in fsets:
         c = ctx.mir(fs)["ts_rs"]
-        res = [L.visit_agreement_rule(c, "C12"), L.totality_rule(c, "C12")]
+        res = [L.visit_agreement_rule(c, "C12"), L.totality_rule(c, "C12"), L.forwarding_rule(c, "C12")]
         if fs == "default":
-            res.insert(0, L.class_table_rule(ctx.syn, c, "C12"))
+            # the expanded impls of every feature are at hand in the `allimpl` build: used when a macro is not read from source
+            res.insert(0, L.class_table_rule(ctx.syn, ctx.mir("allimpl")["ts_rs"], "C12"))
             res.append(L.map_key_rule(ctx.syn, "C12", crate=c))
         for r in res:
             if fs != "default":
